@@ -31,7 +31,7 @@ def check(tier):
     main_cov = dict(rep.cov)
     # narrow alphabet one level deeper
     rep2 = Report(PROP, tier)
-    cfg2 = e1.Config(PROP, sigma_narrow(), depth + 1, [], [oracles.c03_events], split=2)
+    cfg2 = e1.Config(PROP, sigma_narrow(), depth + 2, [], [oracles.c03_events], split=2)
     e1.run(cfg2, rep2)
     _fold(rep, rep2, "narrow")
     # full-class pass: every opcode class in every position of length<=3 programs
